@@ -265,7 +265,7 @@ def build_sim(kind):
         args = [instr_bin(), "-dir", copy, "-sites", os.path.join(kd, "sites.json")]
         if kind == "race":
             args.append("-yield")
-            args += ["-resetglobals", "ygot/ygot,ygot/ytypes,ygot/util,ygot/internal/yreflect"]
+        args += ["-resetglobals", "ygot/ygot,ygot/ytypes,ygot/util,ygot/internal/yreflect"]
         run(args + pkgs, cwd=copy)
         # 3. harness
         hd = os.path.join(copy, "verifharness")
